@@ -366,7 +366,8 @@ def run(chk, tier):
     ex = ThreadPoolExecutor(max_workers=6)
     texts = ci.valid_texts(tier, chk.seed)
     mseed = 0 if tier == "quick" else chk.seed % 1000
-    f_mut = ex.submit(ci.mutant_family, chk, d, texts, stride, cstride, mseed, maxq, 9 if tier == "quick" else 14)
+    mtexts = texts if not only or "mutant" in only else texts[:2]        # (development run without the mutants: two texts)
+    f_mut = ex.submit(ci.mutant_family, chk, d, mtexts, stride, cstride, mseed, maxq, 9 if tier == "quick" else 14)
     f_enum = ex.submit(ci.enum_family, chk, d, enum_parts, 10 if tier == "quick" else 14)
     f_dirs = ex.submit(ci.dirs_family, chk, d, dirlen)
     f_stress = ex.submit(ci.stress_family, chk, d)
